@@ -255,5 +255,43 @@ func TestVerifPadTokens(t *testing.T) {
 			}
 		}
 	}
-	out.Emit(map[string]interface{}{"kind": "summary", "vectors": n, "bytes": len(text), "mismatches": bad})
+	// words broken over lines (hyphen + line break, also over blank lines, with CRLF, before a notice, at the end of input): the
+	// tokenizer's state for the pending word lives across refills of its read buffer, so every alignment must give the
+	// words, lines and notices of the unpadded text (leading blanks are not words and do not move lines)
+	unit := "alpha ver-\nsion beta gamma\nhy-\n\nphen delta &amp; x-\r\ny z-\nCopyright 2020 Foo\nlong-\n-\ntail 3.1-\n2 é-\nÉ end\n"
+	text2 := strings.Repeat(unit, 24) + "last-\n"
+	for _, norm := range []bool{true, false} {
+		w0, l0, n0, err := vtTokenize([]byte(text2), norm)
+		if err != nil {
+			t.Fatal(err)
+		}
+		for pad := 1; pad <= 1100; pad++ {
+			n++
+			w, l, nt, err := vtTokenize([]byte(strings.Repeat(" ", pad)+text2), norm)
+			why := ""
+			switch {
+			case err != nil:
+				why = err.Error()
+			case vuJS(w) != vuJS(w0):
+				why = "other words than without the padding"
+			case vuJS(l) != vuJS(l0):
+				why = "same words on other lines than without the padding"
+				for i := range l {
+					if l[i] != l0[i] {
+						why += fmt.Sprintf(" (word %d %q: line %d, unpadded %d)", i, w[i], l[i], l0[i])
+						break
+					}
+				}
+			case vuJS(nt) != vuJS(n0):
+				why = fmt.Sprintf("notice lines %v, unpadded %v", nt, n0)
+			}
+			if why != "" {
+				bad++
+				if bad <= 5 {
+					out.Emit(map[string]interface{}{"kind": "mismatch", "pad": pad, "normalize": norm, "why": "hyphenated text: " + why})
+				}
+			}
+		}
+	}
+	out.Emit(map[string]interface{}{"kind": "summary", "vectors": n, "bytes": len(text) + len(text2), "mismatches": bad})
 }
